@@ -111,6 +111,11 @@ META.update({
 "C10b":dict(breaks="C10: HyperViscoelastic._energy_density wraps the viscous strain increment in jax.lax.stop_gradient ('the potential is stationary with respect to it'): stress exact, tangent uses the unrelaxed non-equilibrium stiffness",
   needs="the single-branch viscoelastic model AND a check of the SECOND derivative of the energy AND a time step not negligible against the relaxation time (error ~ G_neq (dt/tau)/(1+dt/tau))"),
 })
+
+META.update({
+"C03":dict(breaks="C03: the barycentric weights placing element-interior nodes in create_higher_order_mesh_from_simplex_mesh use the textbook convention (vertex 0 at the parent origin) instead of the library's (vertex 2 at the origin): interior nodes get each other's coordinates",
+  needs="an element with at least three interior nodes (plain order 4-5, or bubble order 3-5) AND interpolation of a nodal field / an x-dependent integrand; areas, partition of unity and shape gradients are untouched; orders <= 3 without bubble (all upstream tests) never reach the branch"),
+})
 for pid in sys.argv[1:]:
     p='/verif/seeded/%s/meta.json'%pid
     if not os.path.exists(p): print('no meta for',pid); continue
